@@ -16,7 +16,7 @@ ENV = dict(os.environ, GOFLAGS="-mod=mod", GOPROXY="off", GOSUMDB="off", GOTOOLC
 V = os.path.dirname(os.path.dirname(os.path.abspath(__file__)))
 
 def sh(cmd, cwd=None, timeout=3600):
-    p = subprocess.run(cmd, shell=True, cwd=cwd, env=ENV, capture_output=True, text=True, timeout=timeout)
+    p = subprocess.run(cmd, shell=True, cwd=cwd, env=ENV, capture_output=True, text=True, errors="replace", timeout=timeout)
     return p.returncode, p.stdout + p.stderr
 
 def main():
@@ -59,7 +59,7 @@ def main():
             for seed in seeds:
                 t0 = time.time()
                 env = dict(ENV, VERIF_SEED=seed)
-                p = subprocess.run([os.path.join(V, "bin/check-at"), wt, c, tier] + extra, env=env, capture_output=True, text=True, timeout=7200)
+                p = subprocess.run([os.path.join(V, "bin/check-at"), wt, c, tier] + extra, env=env, capture_output=True, text=True, errors="replace", timeout=7200)
                 o = p.stdout + p.stderr
                 viol = re.findall(r"class=(\S+) sig=(\S*)", o)
                 key = c if len(seeds) == 1 else f"{c}@{seed}"
